@@ -20,6 +20,7 @@ EXPLANATION = (
     "index of their individual (identity tracked through each record's hit counter). Every configuration is evaluated twice: with fresh records (remembered best = the current individual) and with records that remember a strictly better individual than the one they hold (the history after an accepted uphill move) - the energy of a reactant is that of the individual it holds NOW. (R5) the base case: ChemicalReactionInit::execute leaves exactly one fresh record (configured kinetic energy, no hits) per individual of the current population, in order, also when records of an earlier initialisation are still stored, and leaves the stack alone. K4: none of the updates "
     "re-acquires a state type whose guard it still holds. (INIT) init() evaluated with every field of self a distinct symbol inserts exactly the state types of a reviewed table, under the component's own instantiation, each built from exactly the documented field or empty / zero. NOT decided: conservation as an arithmetic identity over "
     "arbitrary floats (only at the sampled configurations), the reaction-selection criteria's probabilities.")
+EXPLANATION += " " + '(revised) records and buffer are cells of the typed store; (R2 revised) net stack effect -2 on every Ok path, reaching no deeper than the population underneath.'
 ASSUMPTIONS = ["random draws lie in their documented ranges (representatives 0.25 / 0.5 are used)"]
 
 CRO = "mahf::components::misc::cro::"
